@@ -42,12 +42,15 @@ ASSUMPTIONS = [
 ]
 
 SIG = "C09|{}|{}"
-K_GLOB = "depends-on-global-rng-state"
+K_GLOB = "depends-on-global-rng-state-or-uninitialised-memory"
 K_CLOCK = "depends-on-wall-clock"
 K_HASH = "depends-on-hash-seed"
 K_REPEAT = "not-repeatable-under-identical-controlled-conditions"
 K_UNATTR = "differs-between-runs-unattributed"
 K_HISTORY = "depends-on-earlier-runs-in-the-same-process"
+# note: the content of np.empty memory inside the replay-buffer module is tied to the global-RNG perturbation value
+# (c09_drivers.perturbed), so a dependence on uninitialised buffer memory is reported as depends-on-global-rng-state /
+# uninitialised memory
 # routines acting in a continuous Box: before run B a *different* training (same routine, other action bounds)
 # is executed in the same process, so state kept across calls (module-level caches) becomes visible
 HISTORY = {"ddpg", "td3", "td3_lap", "sac", "td7", "mrq", "pets", "mrq@ls0"}
